@@ -41,6 +41,7 @@ CONSTANTS NW,           \* number of writers ("w1".."w3")
           RPB,          \* rows per batch
           NSigs,        \* schema signatures (chosen per batch in Init)
           NHours,       \* row j of a batch lies in hour ((j-1) % NHours)+1
+          NKeys,        \* buffer keys (database/measurement) in the ONE shard; batch b goes to key (((b-1) \div NW) % NKeys)+1
           MaxBuf, QCap, NWorkers, MaxIters,
           WalOn,
           FailKinds,    \* how a storage write fails while storage is down: subset of {"error", "timeout"}
@@ -62,6 +63,8 @@ Rows       == 1..(NBatch * RPB)
 RowsOf(b)  == {(b-1)*RPB + j : j \in 1..RPB}
 BatchOf(r) == ((r-1) \div RPB) + 1
 HourOf(r)  == (((r-1) % RPB) % NHours) + 1
+Keys       == 1..NKeys
+KeyOf(b)   == (((b-1) \div NW) % NKeys) + 1
 WNames     == {Writers[i] : i \in 1..Len(Writers)}
 Owner(b)   == Writers[((b-1) % Len(Writers)) + 1]
 WP         == WNames \cup {"tick"}
@@ -76,7 +79,10 @@ VARIABLES started, sig, rotAfter,
           wpc, wb, wit, wext,          \* write machines (writers and the replaying tick)
           io,                          \* [IOP -> SUBSET Inst] rows of the flush a process is writing
           cur,                         \* [IOP -> SUBSET Inst] the (one-hour) object being written right now
-          buf, bsig, queue, wkst,
+          buf, bsig,                   \* per key: buffered row instances, schema signature (0 = no buffer)
+          fa,                          \* FlushAll: [keys: snapshot still to flush, err: lastErr # nil, ret: "none"|"ok"|"err"]
+          agkeys,                      \* flushAgedBuffers: keys still to visit
+          queue, wkst,
           ack, stored,
           closing, cancelled, fapc, agpc, nag, clpc,
           up, ndown, flag, walA, walR, nrot,
@@ -84,11 +90,11 @@ VARIABLES started, sig, rotAfter,
           shpc, restarted,
           fate, hist
 
-vars == <<started, sig, rotAfter, wpc, wb, wit, wext, io, cur, buf, bsig, queue, wkst, ack, stored,
+vars == <<started, sig, rotAfter, wpc, wb, wit, wext, io, cur, buf, bsig, fa, agkeys, queue, wkst, ack, stored,
           closing, cancelled, fapc, agpc, nag, clpc, up, ndown, flag, walA, walR, nrot,
           tpc, tq, ntick, tstop, rgen, shpc, restarted, fate, hist>>
 
-view == <<started, sig, rotAfter, wpc, wb, wit, wext, io, cur, buf, bsig, queue, wkst, ack, stored,
+view == <<started, sig, rotAfter, wpc, wb, wit, wext, io, cur, buf, bsig, fa, agkeys, queue, wkst, ack, stored,
           closing, cancelled, fapc, agpc, nag, clpc, up, ndown, flag, walA, walR, nrot,
           tpc, tq, ntick, tstop, rgen, shpc, restarted>>
 
@@ -99,7 +105,9 @@ Init ==
     /\ wpc = [p \in WP |-> "idle"] /\ wb = [p \in WP |-> 0] /\ wit = [p \in WP |-> 0]
     /\ wext = [p \in WP |-> {}]
     /\ io = [p \in IOP |-> {}] /\ cur = [p \in IOP |-> {}]
-    /\ buf = {} /\ bsig = 0 /\ queue = <<>> /\ wkst = [k \in WK |-> "run"]
+    /\ buf = [k \in Keys |-> {}] /\ bsig = [k \in Keys |-> 0]
+    /\ fa = [keys |-> {}, err |-> FALSE, ret |-> "none"] /\ agkeys = {}
+    /\ queue = <<>> /\ wkst = [k \in WK |-> "run"]
     /\ ack = [b \in BatchIds |-> "none"] /\ stored = [r \in Rows |-> 0]
     /\ closing = FALSE /\ cancelled = FALSE /\ fapc = "idle" /\ agpc = "idle" /\ nag = 0 /\ clpc = "idle"
     /\ up = TRUE /\ ndown = 0 /\ flag = FALSE /\ walA = {} /\ walR = {} /\ nrot = 0
@@ -107,6 +115,7 @@ Init ==
     /\ shpc = "idle" /\ restarted = FALSE
     /\ fate = [r \in Rows |-> {}] /\ hist = <<>>
 
+AllBuf      == UNION {buf[k] : k \in Keys}
 RowsIn(S)   == {i[1] : i \in S}
 Discard(S, tag) == fate' = [r \in Rows |-> IF r \in RowsIn(S) THEN fate[r] \cup {tag} ELSE fate[r]]
 Busy        == {w \in WNames : wpc[w] # "idle"}
@@ -152,7 +161,7 @@ WStart(w) ==
                    ELSE /\ walA' = walA \cup {b} /\ UNCHANGED <<walR, nrot>>
             ELSE UNCHANGED <<walA, walR, nrot>>
        /\ Cmd([c |-> "write", w |-> w, b |-> b, sig |-> sig[b], rot |-> b \in rotAfter, pend |-> Pending])
-    /\ UNCHANGED <<cur, sig, rotAfter, wext, io, buf, bsig, queue, wkst, ack, stored, closing, cancelled, fapc,
+    /\ UNCHANGED <<fa, agkeys, cur, sig, rotAfter, wext, io, buf, bsig, queue, wkst, ack, stored, closing, cancelled, fapc,
                    agpc, nag, clpc, up, ndown, flag, tpc, tq, ntick, tstop, rgen, shpc, restarted, fate>>
 
 Finish(p, res) ==
@@ -163,19 +172,19 @@ InstOf(p) == {<<r, IF p = "tick" THEN rgen[wb[p]] ELSE 0>> : r \in RowsOf(wb[p])
 
 WLock(p) ==
     /\ wpc[p] = "lock" \/ (wpc[p] = "io" /\ io[p] = {})
-    /\ LET b == wb[p] s == sig[b] IN
-       IF wit[p] >= MaxIters /\ bsig \notin {0, s} /\ p # "tick"
+    /\ LET b == wb[p] s == sig[b] k == KeyOf(b) IN
+       IF wit[p] >= MaxIters /\ bsig[k] \notin {0, s} /\ p # "tick"
          THEN /\ Finish(p, "err") /\ UNCHANGED <<wit, wext, io, buf, bsig>>   \* ErrSchemaChurnExceeded: not accepted
-       ELSE IF bsig \notin {0, s}
-         THEN /\ io' = [io EXCEPT ![p] = buf] /\ buf' = {} /\ bsig' = 0     \* flushBufferLocked: extract, unlock, I/O
+       ELSE IF bsig[k] \notin {0, s}
+         THEN /\ io' = [io EXCEPT ![p] = buf[k]] /\ buf' = [buf EXCEPT ![k] = {}] /\ bsig' = [bsig EXCEPT ![k] = 0]   \* flushBufferLocked: extract, unlock, I/O
               /\ wit' = [wit EXCEPT ![p] = IF p = "tick" THEN 0 ELSE @ + 1]
               /\ wpc' = [wpc EXCEPT ![p] = "io"] /\ UNCHANGED <<wb, ack, wext>>
-       ELSE LET nb == buf \cup InstOf(p) IN
+       ELSE LET nb == buf[k] \cup InstOf(p) IN
             IF Cardinality(nb) >= MaxBuf
-              THEN /\ wext' = [wext EXCEPT ![p] = nb] /\ buf' = {} /\ bsig' = 0
+              THEN /\ wext' = [wext EXCEPT ![p] = nb] /\ buf' = [buf EXCEPT ![k] = {}] /\ bsig' = [bsig EXCEPT ![k] = 0]
                    /\ wpc' = [wpc EXCEPT ![p] = "enq"] /\ UNCHANGED <<wb, ack, wit, io>>
-              ELSE /\ buf' = nb /\ bsig' = s /\ Finish(p, "ok") /\ UNCHANGED <<wit, wext, io>>
-    /\ UNCHANGED <<cur, started, sig, rotAfter, queue, wkst, stored, closing, cancelled, fapc, agpc, nag, clpc,
+              ELSE /\ buf' = [buf EXCEPT ![k] = nb] /\ bsig' = [bsig EXCEPT ![k] = s] /\ Finish(p, "ok") /\ UNCHANGED <<wit, wext, io>>
+    /\ UNCHANGED <<fa, agkeys, cur, started, sig, rotAfter, queue, wkst, stored, closing, cancelled, fapc, agpc, nag, clpc,
                    up, ndown, flag, walA, walR, nrot, tpc, tq, ntick, tstop, rgen, shpc, restarted, fate, hist>>
 
 WEnq(p) ==
@@ -183,7 +192,7 @@ WEnq(p) ==
     /\ IF closing
          THEN /\ Discard(wext[p], "closing") /\ wext' = [wext EXCEPT ![p] = {}] /\ Finish(p, "ok")
          ELSE /\ wpc' = [wpc EXCEPT ![p] = "sel"] /\ UNCHANGED <<wext, wb, ack, fate>>
-    /\ UNCHANGED <<cur, started, sig, rotAfter, wit, io, buf, bsig, queue, wkst, stored, closing, cancelled, fapc,
+    /\ UNCHANGED <<fa, agkeys, cur, started, sig, rotAfter, wit, io, buf, bsig, queue, wkst, stored, closing, cancelled, fapc,
                    agpc, nag, clpc, up, ndown, flag, walA, walR, nrot, tpc, tq, ntick, tstop, rgen, shpc,
                    restarted, hist>>
 
@@ -193,21 +202,21 @@ WSel(p) ==
        \/ /\ cancelled /\ Discard(wext[p], "cxl") /\ UNCHANGED queue
        \/ /\ Len(queue) >= QCap /\ ~cancelled /\ Discard(wext[p], "qfull") /\ UNCHANGED queue
     /\ wext' = [wext EXCEPT ![p] = {}] /\ Finish(p, "ok")
-    /\ UNCHANGED <<cur, started, sig, rotAfter, wit, io, buf, bsig, wkst, stored, closing, cancelled, fapc, agpc, nag,
+    /\ UNCHANGED <<fa, agkeys, cur, started, sig, rotAfter, wit, io, buf, bsig, wkst, stored, closing, cancelled, fapc, agpc, nag,
                    clpc, up, ndown, flag, walA, walR, nrot, tpc, tq, ntick, tstop, rgen, shpc, restarted, hist>>
 
 \* ---- flush workers
 WkTake(k) ==
     /\ wkst[k] = "run" /\ io[k] = {} /\ queue # <<>>
     /\ io' = [io EXCEPT ![k] = Head(queue)] /\ queue' = Tail(queue)
-    /\ UNCHANGED <<cur, started, sig, rotAfter, wpc, wb, wit, wext, buf, bsig, wkst, ack, stored, closing, cancelled,
+    /\ UNCHANGED <<fa, agkeys, cur, started, sig, rotAfter, wpc, wb, wit, wext, buf, bsig, wkst, ack, stored, closing, cancelled,
                    fapc, agpc, nag, clpc, up, ndown, flag, walA, walR, nrot, tpc, tq, ntick, tstop, rgen, shpc,
                    restarted, fate, hist>>
 
 WkExit(k) ==
     /\ wkst[k] = "run" /\ io[k] = {} /\ cancelled
     /\ wkst' = [wkst EXCEPT ![k] = "exit"]
-    /\ UNCHANGED <<cur, started, sig, rotAfter, wpc, wb, wit, wext, io, buf, bsig, queue, ack, stored, closing,
+    /\ UNCHANGED <<fa, agkeys, cur, started, sig, rotAfter, wpc, wb, wit, wext, io, buf, bsig, queue, ack, stored, closing,
                    cancelled, fapc, agpc, nag, clpc, up, ndown, flag, walA, walR, nrot, tpc, tq, ntick, tstop,
                    rgen, shpc, restarted, fate, hist>>
 
@@ -215,7 +224,7 @@ WkExit(k) ==
 IOPick(p) ==
     /\ io[p] # {} /\ cur[p] = {}
     /\ \E h \in {HourOf(i[1]) : i \in io[p]} : cur' = [cur EXCEPT ![p] = {i \in io[p] : HourOf(i[1]) = h}]
-    /\ UNCHANGED <<started, sig, rotAfter, wpc, wb, wit, wext, io, buf, bsig, queue, wkst, ack, stored, closing,
+    /\ UNCHANGED <<fa, agkeys, started, sig, rotAfter, wpc, wb, wit, wext, io, buf, bsig, queue, wkst, ack, stored, closing,
                    cancelled, fapc, agpc, nag, clpc, up, ndown, flag, walA, walR, nrot, tpc, tq, ntick, tstop, rgen,
                    shpc, restarted, fate, hist>>
 IOStep(p) ==
@@ -224,50 +233,65 @@ IOStep(p) ==
     /\ IF up THEN /\ stored' = [r \in Rows |-> stored[r] + Cardinality({i \in cur[p] : i[1] = r})]
                   /\ io' = [io EXCEPT ![p] = @ \ cur[p]] /\ UNCHANGED <<flag, fate>>
                   /\ Cmd([c |-> "io", p |-> p, rows |-> RowsIn(cur[p]), ok |-> TRUE, kind |-> "ok", pend |-> Pending])
-             ELSE /\ io' = [io EXCEPT ![p] = {}] /\ flag' = TRUE /\ Discard(io[p], "ffail")   \* markFlushFailure
+             ELSE /\ io' = [io EXCEPT ![p] = {}] /\ flag' = TRUE   \* markFlushFailure
+                  /\ Discard(io[p], IF p = "fa" THEN "ffail_fa" ELSE "ffail")
                   /\ UNCHANGED stored
                   /\ \E k \in (IF p \in WK THEN FailKinds ELSE {"error"}) :   \* only worker flushes carry the flush timeout
                         Cmd([c |-> "io", p |-> p, rows |-> RowsIn(cur[p]), ok |-> FALSE, kind |-> k, pend |-> Pending])
     /\ cur' = [cur EXCEPT ![p] = {}]
-    /\ UNCHANGED <<started, sig, rotAfter, wpc, wb, wit, wext, buf, bsig, queue, wkst, ack, closing, cancelled,
+    /\ fa' = IF p = "fa" /\ ~up THEN [fa EXCEPT !.err = TRUE] ELSE fa                  \* lastErr = err
+    /\ UNCHANGED <<agkeys, started, sig, rotAfter, wpc, wb, wit, wext, buf, bsig, queue, wkst, ack, closing, cancelled,
                    fapc, agpc, nag, clpc, up, ndown, walA, walR, nrot, tpc, tq, ntick, tstop, rgen, shpc, restarted>>
 
 StorageDown == /\ CmdOK /\ up /\ ndown < MaxDown /\ up' = FALSE /\ ndown' = ndown + 1
                /\ Cmd([c |-> "down", pend |-> Pending])
-               /\ UNCHANGED <<cur, started, sig, rotAfter, wpc, wb, wit, wext, io, buf, bsig, queue, wkst, ack, stored,
+               /\ UNCHANGED <<fa, agkeys, cur, started, sig, rotAfter, wpc, wb, wit, wext, io, buf, bsig, queue, wkst, ack, stored,
                               closing, cancelled, fapc, agpc, nag, clpc, flag, walA, walR, nrot, tpc, tq, ntick,
                               tstop, rgen, shpc, restarted, fate>>
 StorageUp   == /\ CmdOK /\ ~up /\ up' = TRUE
                /\ Cmd([c |-> "up", pend |-> Pending])
-               /\ UNCHANGED <<cur, started, sig, rotAfter, wpc, wb, wit, wext, io, buf, bsig, queue, wkst, ack, stored,
+               /\ UNCHANGED <<fa, agkeys, cur, started, sig, rotAfter, wpc, wb, wit, wext, io, buf, bsig, queue, wkst, ack, stored,
                               closing, cancelled, fapc, agpc, nag, clpc, ndown, flag, walA, walR, nrot, tpc, tq,
                               ntick, tstop, rgen, shpc, restarted, fate>>
 
 \* ---- FlushAll / flushAgedBuffers: extract under the lock, unlock, I/O, lock again
-FAStart ==
+FAStart ==          \* shard.mu.Lock(); snapshot of the keys in shard.buffers
     /\ CmdOK
     /\ "flushall" \in Ops /\ fapc = "idle" /\ clpc = "idle" /\ shpc \in {"idle", "done"}
     /\ shpc = "done" => (restarted /\ tpc = "idle")
-    /\ IF buf # {} THEN /\ io' = [io EXCEPT !["fa"] = buf] /\ buf' = {} /\ bsig' = 0 /\ fapc' = "io"
-                   ELSE /\ fapc' = "done" /\ UNCHANGED <<io, buf, bsig>>
+    /\ fa' = [keys |-> {k \in Keys : buf[k] # {}}, err |-> FALSE, ret |-> "none"] /\ fapc' = "io"
     /\ Cmd([c |-> "flushall", pend |-> Pending])
-    /\ UNCHANGED <<cur, started, sig, rotAfter, wpc, wb, wit, wext, queue, wkst, ack, stored, closing, cancelled, agpc,
-                   nag, clpc, up, ndown, flag, walA, walR, nrot, tpc, tq, ntick, tstop, rgen, shpc, restarted, fate>>
-FAEnd ==
-    /\ fapc = "io" /\ io["fa"] = {} /\ fapc' = "done"
-    /\ UNCHANGED <<cur, started, sig, rotAfter, wpc, wb, wit, wext, io, buf, bsig, queue, wkst, ack, stored, closing,
+    /\ UNCHANGED <<agkeys, cur, started, sig, rotAfter, wpc, wb, wit, wext, io, buf, bsig, queue, wkst, ack, stored, closing,
+                   cancelled, agpc, nag, clpc, up, ndown, flag, walA, walR, nrot, tpc, tq, ntick, tstop, rgen, shpc,
+                   restarted, fate>>
+FANext ==           \* still under the lock: next key of the snapshot (map order) -> flushBufferLocked; or return lastErr
+    /\ fapc = "io" /\ io["fa"] = {}
+    /\ IF fa.keys = {}
+         THEN /\ fapc' = "done" /\ fa' = [fa EXCEPT !.ret = IF fa.err THEN "err" ELSE "ok"]
+              /\ UNCHANGED <<io, buf, bsig>>
+         ELSE \E k \in fa.keys :
+              /\ fa' = [fa EXCEPT !.keys = @ \ {k}]
+              /\ io' = [io EXCEPT !["fa"] = buf[k]] /\ buf' = [buf EXCEPT ![k] = {}] /\ bsig' = [bsig EXCEPT ![k] = 0]
+              /\ UNCHANGED fapc
+    /\ UNCHANGED <<agkeys, cur, started, sig, rotAfter, wpc, wb, wit, wext, queue, wkst, ack, stored, closing,
                    cancelled, agpc, nag, clpc, up, ndown, flag, walA, walR, nrot, tpc, tq, ntick, tstop, rgen,
                    shpc, restarted, fate, hist>>
 AgStart ==
     /\ CmdOK
-    /\ nag < MaxAged /\ agpc = "idle" /\ ~cancelled /\ buf # {}
-    /\ io' = [io EXCEPT !["aged"] = buf] /\ buf' = {} /\ bsig' = 0 /\ agpc' = "io" /\ nag' = nag + 1
+    /\ nag < MaxAged /\ agpc = "idle" /\ ~cancelled /\ \E k \in Keys : buf[k] # {}
+    /\ agkeys' = {k \in Keys : buf[k] # {}} /\ agpc' = "io" /\ nag' = nag + 1
     /\ Cmd([c |-> "aged", pend |-> Pending])
-    /\ UNCHANGED <<cur, started, sig, rotAfter, wpc, wb, wit, wext, queue, wkst, ack, stored, closing, cancelled, fapc,
+    /\ UNCHANGED <<fa, cur, started, sig, rotAfter, wpc, wb, wit, wext, io, buf, bsig, queue, wkst, ack, stored, closing, cancelled, fapc,
                    clpc, up, ndown, flag, walA, walR, nrot, tpc, tq, ntick, tstop, rgen, shpc, restarted, fate>>
-AgEnd ==
-    /\ agpc = "io" /\ io["aged"] = {} /\ agpc' = "idle"
-    /\ UNCHANGED <<cur, started, sig, rotAfter, wpc, wb, wit, wext, io, buf, bsig, queue, wkst, ack, stored, closing,
+AgNext ==
+    /\ agpc = "io" /\ io["aged"] = {}
+    /\ IF agkeys = {}
+         THEN /\ agpc' = "idle" /\ UNCHANGED <<agkeys, io, buf, bsig>>
+         ELSE \E k \in agkeys :
+              /\ agkeys' = agkeys \ {k}
+              /\ io' = [io EXCEPT !["aged"] = buf[k]] /\ buf' = [buf EXCEPT ![k] = {}] /\ bsig' = [bsig EXCEPT ![k] = 0]
+              /\ UNCHANGED agpc
+    /\ UNCHANGED <<fa, cur, started, sig, rotAfter, wpc, wb, wit, wext, queue, wkst, ack, stored, closing,
                    cancelled, fapc, nag, clpc, up, ndown, flag, walA, walR, nrot, tpc, tq, ntick, tstop, rgen,
                    shpc, restarted, fate, hist>>
 
@@ -282,12 +306,12 @@ CStart ==
     /\ CloseAfterWrites => AllWritten
     /\ CStartBody
     /\ Cmd([c |-> "close", pend |-> Pending])
-    /\ UNCHANGED <<cur, started, sig, rotAfter, wpc, wb, wit, wext, io, buf, bsig, queue, wkst, ack, stored, cancelled,
+    /\ UNCHANGED <<fa, agkeys, cur, started, sig, rotAfter, wpc, wb, wit, wext, io, buf, bsig, queue, wkst, ack, stored, cancelled,
                    fapc, agpc, nag, up, ndown, flag, walA, walR, nrot, tpc, tq, ntick, tstop, rgen, shpc,
                    restarted, fate>>
 CCancel ==
     /\ clpc = "flag" /\ cancelled' = TRUE /\ clpc' = "wait"
-    /\ UNCHANGED <<cur, started, sig, rotAfter, wpc, wb, wit, wext, io, buf, bsig, queue, wkst, ack, stored, closing,
+    /\ UNCHANGED <<fa, agkeys, cur, started, sig, rotAfter, wpc, wb, wit, wext, io, buf, bsig, queue, wkst, ack, stored, closing,
                    fapc, agpc, nag, up, ndown, flag, walA, walR, nrot, tpc, tq, ntick, tstop, rgen, shpc,
                    restarted, fate, hist>>
 CFlush ==   \* after wg.Wait(): flush what is in the shard (and, if repaired, what is still queued)
@@ -297,10 +321,12 @@ CFlush ==   \* after wg.Wait(): flush what is in the shard (and, if repaired, wh
     /\ IF CloseDrains /\ queue # <<>>
          THEN /\ io' = [io EXCEPT !["close"] = Head(queue)] /\ queue' = Tail(queue) /\ clpc' = "io"
               /\ UNCHANGED <<buf, bsig>>
-       ELSE IF buf # {}
-         THEN /\ io' = [io EXCEPT !["close"] = buf] /\ buf' = {} /\ bsig' = 0 /\ clpc' = "io" /\ UNCHANGED queue
+       ELSE IF \E k \in Keys : buf[k] # {}
+         THEN /\ \E k \in {x \in Keys : buf[x] # {}} :
+                    io' = [io EXCEPT !["close"] = buf[k]] /\ buf' = [buf EXCEPT ![k] = {}] /\ bsig' = [bsig EXCEPT ![k] = 0]
+              /\ clpc' = "io" /\ UNCHANGED queue
          ELSE /\ clpc' = "done" /\ UNCHANGED <<io, buf, bsig, queue>>
-    /\ UNCHANGED <<cur, started, sig, rotAfter, wpc, wb, wit, wext, wkst, ack, stored, closing, cancelled, fapc, agpc,
+    /\ UNCHANGED <<fa, agkeys, cur, started, sig, rotAfter, wpc, wb, wit, wext, wkst, ack, stored, closing, cancelled, fapc, agpc,
                    nag, up, ndown, flag, walA, walR, nrot, tpc, tq, ntick, tstop, rgen, shpc, restarted, fate, hist>>
 
 \* ---- WAL file ages (controlled by the environment: time passes)
@@ -309,7 +335,7 @@ AgeFile ==
     /\ \E f \in walR : /\ f.age # "old"
                        /\ walR' = (walR \ {f}) \cup {[f EXCEPT !.age = IF f.age = "young" THEN "mid" ELSE "old"]}
                        /\ Cmd([c |-> "age", file |-> f.id, to |-> IF f.age = "young" THEN "mid" ELSE "old", pend |-> Pending])
-    /\ UNCHANGED <<cur, started, sig, rotAfter, wpc, wb, wit, wext, io, buf, bsig, queue, wkst, ack, stored, closing,
+    /\ UNCHANGED <<fa, agkeys, cur, started, sig, rotAfter, wpc, wb, wit, wext, io, buf, bsig, queue, wkst, ack, stored, closing,
                    cancelled, fapc, agpc, nag, clpc, up, ndown, flag, walA, nrot, tpc, tq, ntick, tstop, rgen, shpc,
                    restarted, fate>>
 
@@ -328,7 +354,7 @@ TickStart ==
        /\ IF flag THEN /\ tq' = FileSeq({f \in keep : f.age = "mid"}) /\ tpc' = "replay"
                   ELSE /\ UNCHANGED <<tq, tpc>>
     /\ Cmd([c |-> "tick", flag |-> flag, pend |-> Pending])
-    /\ UNCHANGED <<cur, started, sig, rotAfter, wpc, wb, wit, wext, io, buf, bsig, queue, wkst, ack, stored, closing,
+    /\ UNCHANGED <<fa, agkeys, cur, started, sig, rotAfter, wpc, wb, wit, wext, io, buf, bsig, queue, wkst, ack, stored, closing,
                    cancelled, fapc, agpc, nag, clpc, up, ndown, flag, walA, nrot, tstop, rgen, shpc, restarted, fate>>
 TickNext ==
     /\ tpc = "replay" /\ wpc["tick"] = "idle"
@@ -343,7 +369,7 @@ TickNext ==
               /\ rgen' = [rgen EXCEPT ![b] = @ + 1]
               /\ wb' = [wb EXCEPT !["tick"] = b] /\ wpc' = [wpc EXCEPT !["tick"] = "lock"]
               /\ UNCHANGED <<tpc, flag, walR>>
-    /\ UNCHANGED <<cur, started, sig, rotAfter, wit, wext, io, buf, bsig, queue, wkst, ack, stored, closing, cancelled,
+    /\ UNCHANGED <<fa, agkeys, cur, started, sig, rotAfter, wit, wext, io, buf, bsig, queue, wkst, ack, stored, closing, cancelled,
                    fapc, agpc, nag, clpc, up, ndown, walA, nrot, ntick, tstop, shpc, restarted, fate, hist>>
 
 \* ---- graceful shutdown: every hook first, then every component
@@ -353,46 +379,47 @@ ShStart ==
     /\ CloseAfterWrites => AllWritten
     /\ shpc' = "hooks" /\ tstop' = TRUE                          \* wal-periodic-maintenance hook (30)
     /\ Cmd([c |-> "shutdown", pend |-> Pending])
-    /\ UNCHANGED <<cur, started, sig, rotAfter, wpc, wb, wit, wext, io, buf, bsig, queue, wkst, ack, stored, closing,
+    /\ UNCHANGED <<fa, agkeys, cur, started, sig, rotAfter, wpc, wb, wit, wext, io, buf, bsig, queue, wkst, ack, stored, closing,
                    cancelled, fapc, agpc, nag, clpc, up, ndown, flag, walA, walR, nrot, tpc, tq, ntick, rgen,
                    restarted, fate>>
 ShPurge ==                                                       \* wal-purge hook (35): PurgeAll, before any flush
     /\ shpc = "hooks" /\ shpc' = "close"
     /\ IF WalOn THEN walA' = {} /\ walR' = {} ELSE UNCHANGED <<walA, walR>>
     /\ CStartBody                                                \* component arrow-buffer (30)
-    /\ UNCHANGED <<cur, started, sig, rotAfter, wpc, wb, wit, wext, io, buf, bsig, queue, wkst, ack, stored, cancelled,
+    /\ UNCHANGED <<fa, agkeys, cur, started, sig, rotAfter, wpc, wb, wit, wext, io, buf, bsig, queue, wkst, ack, stored, cancelled,
                    fapc, agpc, nag, up, ndown, flag, nrot, tpc, tq, ntick, tstop, rgen, restarted, fate, hist>>
 ShDone ==                                                        \* component wal (40)
     /\ shpc = "close" /\ clpc = "done" /\ shpc' = "done"
-    /\ UNCHANGED <<cur, started, sig, rotAfter, wpc, wb, wit, wext, io, buf, bsig, queue, wkst, ack, stored, closing,
+    /\ UNCHANGED <<fa, agkeys, cur, started, sig, rotAfter, wpc, wb, wit, wext, io, buf, bsig, queue, wkst, ack, stored, closing,
                    cancelled, fapc, agpc, nag, clpc, up, ndown, flag, walA, walR, nrot, tpc, tq, ntick, tstop, rgen,
                    restarted, fate, hist>>
 Restart ==
     /\ CmdOK
     /\ "restart" \in Ops /\ shpc = "done" /\ ~restarted /\ tpc = "idle" /\ wpc["tick"] = "idle"
     /\ restarted' = TRUE
-    /\ buf' = {} /\ bsig' = 0 /\ queue' = <<>> /\ wkst' = [k \in WK |-> "run"]
+    /\ buf' = [k \in Keys |-> {}] /\ bsig' = [k \in Keys |-> 0] /\ queue' = <<>> /\ wkst' = [k \in WK |-> "run"]
+    /\ fa' = [keys |-> {}, err |-> FALSE, ret |-> "none"]
     /\ closing' = FALSE /\ cancelled' = FALSE /\ clpc' = "idle" /\ fapc' = "idle" /\ flag' = FALSE
     /\ LET all == walR \cup (IF walA = {} THEN {} ELSE {[id |-> nrot + 1, bs |-> walA, age |-> "old"]}) IN
        /\ walR' = all /\ walA' = {} /\ tq' = FileSeq(all) /\ tpc' = "replay"
     /\ fate' = [r \in Rows |-> fate[r] \cup (IF \E i \in 1..Len(queue) : r \in RowsIn(queue[i]) THEN {"abandoned"} ELSE {})
-                                        \cup (IF r \in RowsIn(buf) THEN {"stranded"} ELSE {})]
+                                        \cup (IF r \in RowsIn(AllBuf) THEN {"stranded"} ELSE {})]
     /\ Cmd([c |-> "restart", pend |-> Pending])
-    /\ UNCHANGED <<cur, started, sig, rotAfter, wpc, wb, wit, wext, io, ack, stored, agpc, nag, up, ndown, nrot, ntick,
+    /\ UNCHANGED <<agkeys, cur, started, sig, rotAfter, wpc, wb, wit, wext, io, ack, stored, agpc, nag, up, ndown, nrot, ntick,
                    tstop, rgen, shpc>>
 
 -----------------------------------------------------------------------------
 Next == \/ \E p \in WP : WLock(p) \/ WEnq(p) \/ WSel(p)
         \/ \E k \in WK : WkTake(k) \/ WkExit(k)
         \/ \E p \in IOP : IOPick(p)
-        \/ FAEnd \/ AgEnd \/ CCancel \/ CFlush \/ TickNext \/ ShPurge \/ ShDone
+        \/ FANext \/ AgNext \/ CCancel \/ CFlush \/ TickNext \/ ShPurge \/ ShDone
         \/ \E w \in WNames : WStart(w)
         \/ \E p \in IOP : IOStep(p)
         \/ StorageDown \/ StorageUp \/ FAStart \/ AgStart \/ CStart \/ AgeFile \/ TickStart \/ ShStart \/ Restart
 Spec == Init /\ [][Next]_vars
 
 -----------------------------------------------------------------------------
-InMem(r) == \/ r \in RowsIn(buf)
+InMem(r) == \/ r \in RowsIn(AllBuf)
             \/ \E p \in IOP : r \in RowsIn(io[p])
             \/ \E p \in WP : r \in RowsIn(wext[p]) \/ (wb[p] # 0 /\ r \in RowsOf(wb[p]))
             \/ \E i \in 1..Len(queue) : r \in RowsIn(queue[i])
@@ -406,7 +433,7 @@ Accounted == \A b \in BatchIds : ack[b] = "ok" =>
 QueueLive == (\E k \in WK : wkst[k] = "run") \/ (CloseDrains /\ clpc # "done")
 BufLive   == clpc # "done"
 Recoverable(r) ==
-    \/ (r \in RowsIn(buf) /\ BufLive)
+    \/ (r \in RowsIn(AllBuf) /\ BufLive)
     \/ \E p \in IOP : r \in RowsIn(io[p])
     \/ \E p \in WP : r \in RowsIn(wext[p]) \/ (wb[p] # 0 /\ r \in RowsOf(wb[p]))
     \/ (QueueLive /\ \E i \in 1..Len(queue) : r \in RowsIn(queue[i]))
@@ -416,13 +443,15 @@ NoDup  == \A r \in Rows : stored[r] <= 1
 \* as written, rows are lost only by these mechanisms
 Lost(r) == ack[BatchOf(r)] = "ok" /\ stored[r] = 0 /\ ~Recoverable(r)
 Abandoned(r) == \E i \in 1..Len(queue) : r \in RowsIn(queue[i])
-Stranded(r)  == r \in RowsIn(buf)
+Stranded(r)  == r \in RowsIn(AllBuf)
 LossExplained == \A r \in Rows : Lost(r) => (fate[r] # {} \/ Abandoned(r) \/ Stranded(r))
 DupOnlyByReplay == \A r \in Rows : stored[r] > 1 => rgen[BatchOf(r)] > 0
 C03LossOnlyAbandoned == \A r \in Rows : Lost(r) => Abandoned(r)
+\* FlushAll's return value is the acknowledgement of /flush and of imports: nil only if nothing it flushed was dropped
+FlushAckHonest == fa.ret = "ok" => \A r \in Rows : "ffail_fa" \notin fate[r]
 TypeOK == /\ \A p \in IOP : io[p] \subseteq Inst
-          /\ buf \subseteq Inst /\ Len(queue) <= QCap
-          /\ (bsig = 0) = (buf = {})
+          /\ AllBuf \subseteq Inst /\ Len(queue) <= QCap
+          /\ \A k \in Keys : (bsig[k] = 0) = (buf[k] = {})
 
 Terminal == ~ENABLED Next
 Outcome  == [r \in Rows |-> stored[r]]
